@@ -2042,6 +2042,37 @@ def _dead_outside_names(fn, loop, names):
 
 
 
+def _length_headers(fn, loop, seq):
+    """Headers `range(N)` for the locals N of fn that hold the length of the
+    sequence `seq` when `loop` starts: N is bound exactly once, by `N =
+    len(seq)` or `N = seq.shape[0]`, in a statement list that contains the
+    loop (at any depth) behind that binding; `seq` is a pure look-up whose
+    names are bound nowhere in the function (parameters / `self`) and whose
+    root is not stored into, deleted from, updated in place or the receiver
+    of a method-call statement anywhere in the function, so it has the same
+    number of items at the binding and at the loop."""
+    if not _pure_lookup(seq):
+        return []
+    roots = _names(seq)
+    if roots & _names(fn, (ast.Store, ast.Del)):
+        return []
+    if _mutated_through(fn.body, roots) or any(
+            _mutated_through_name(fn, r_) for r_ in roots):
+        return []
+    s = _n(seq)
+    out = []
+    params, locs = local_order(fn)
+    for nm in locs:
+        h = _single_assign(fn, nm)
+        if h is None or _n(h[2].value) not in ('len(%s)' % s,
+                                               '%s.shape[0]' % s):
+            continue
+        blk, i, _st = h
+        if any(x is loop for s_ in blk[i + 1:] for x in ast.walk(s_)):
+            out.append('range(%s)' % nm)
+    return out
+
+
 def _loops_to_reference(fn, rf, log, q):
     ref_loops = rf.get('loops', [])
     ref_iters = {}
@@ -2224,6 +2255,12 @@ def _loops_to_reference(fn, rf, log, q):
             cands = [(h_, ref_iters.get(h_)) for h_ in (
                 'range(len(%s))' % s, 'range(%s.shape[0])' % s)]
         cands = [(h, t) for h, t in cands if t and have[h] < len(t)]
+        if not cands and not keyed:
+            # the recorded header counts with a local that holds the length
+            # of this very sequence: `N = len(S)` ... `for i in range(N)`
+            cands = [(h_, ref_iters.get(h_))
+                     for h_ in _length_headers(fn, n, seq)]
+            cands = [(h, t) for h, t in cands if t and have[h] < len(t)]
         if not cands and not keyed and _row_base(seq) is not None:
             # a column / converted copy has as many rows as its array
             b_ = _n(_row_base(seq))
@@ -4247,6 +4284,62 @@ def _dissolve_built_locals(fn, rf, log, q):
     ast.fix_missing_locations(fn)
 
 
+def _hoist_fresh_dicts(fn, rf, log, q):
+    """X1 = D1; ..; Xn = Dn; (stores into the Xi); T = {}; T['k1'] = X1; ..;
+       T['kn'] = Xn   ->   T = {}; X1 = D1; ..   (the creation of the empty
+    dict moved up in front of the first container that ends in it), so that
+    _dissolve_built_locals can build the containers through T as recorded.
+    Creating an empty dict reads nothing and has no effect, and T is a local
+    that nothing mentions before its creation, so the move is unobservable.
+    Applied only when the whole run of keyed stores behind `T = {}` stores
+    single-assignment locals unknown to the reference, defined in this block
+    in the order in which they are stored (the keys enter T in the same order
+    once the locals are dissolved), into recorded targets."""
+    ref_locs = set(rf.get('locals', []))
+    ref_stores = set(rf.get('stores', []))
+    tried = _in_try(fn)
+    for blk in _blocks(fn):
+        for j, mk in enumerate(blk):
+            if not (isinstance(mk, ast.Assign) and len(mk.targets) == 1 and
+                    isinstance(mk.targets[0], ast.Name) and
+                    isinstance(mk.value, ast.Dict) and not mk.value.keys):
+                continue
+            T = mk.targets[0].id
+            if _single_assign(fn, T) is None or id(mk) in tried:
+                continue
+            inside = {id(n) for s_ in blk[j:] for n in ast.walk(s_)}
+            if any(isinstance(n, ast.Name) and n.id == T and
+                   id(n) not in inside for n in ast.walk(fn)):
+                continue
+            defs, k = [], j + 1
+            while k < len(blk):
+                f_ = blk[k]
+                if not (isinstance(f_, ast.Assign) and len(f_.targets) == 1
+                        and isinstance(f_.targets[0], ast.Subscript)
+                        and isinstance(f_.targets[0].value, ast.Name)
+                        and f_.targets[0].value.id == T
+                        and isinstance(f_.targets[0].slice, ast.Constant)):
+                    break
+                v = f_.value
+                h = _single_assign(fn, v.id) if isinstance(v, ast.Name) \
+                    else None
+                if h is None or v.id in ref_locs or v.id == T or \
+                        h[0] is not blk or h[1] >= j or id(h[2]) in tried or \
+                        _n(f_.targets[0]) not in ref_stores or \
+                        (defs and h[1] <= defs[-1]):
+                    defs = []
+                    break
+                defs.append(h[1])
+                k += 1
+            if not defs:
+                continue
+            del blk[j]
+            blk.insert(defs[0], mk)
+            log.append('%s: creation of dict %s moved up in front of the '
+                       'containers stored into it' % (q, T))
+    ast.fix_missing_locations(fn)
+
+
 def _accumulators_to_targets(fn, rf, log, q):
     """v = <number>; ... v op= e ...; T = {}; T['k'] = v; (reads of v)
          ->  T = {}; T['k'] = <number>; ... T['k'] op= e ...; (reads of T['k'])
@@ -5182,6 +5275,7 @@ def canonicalise(tree, modname, text=None):
         _dissolve_built_locals(fn, rf, log, q)
         _explode_dict_displays(fn, rf, log, q)
         _accumulators_to_targets(fn, rf, log, q)
+        _hoist_fresh_dicts(fn, rf, log, q)
         _dissolve_built_locals(fn, rf, log, q)
         _inline_indexed_comprehensions(fn, rf, log, q)
         _tuple_locals_to_lists(fn, rf, log, q)
